@@ -142,11 +142,4 @@ fn k_proj_wiring_3x2_to_2x2() {
     check_project_wiring([3, 2], [2, 2]);
 }
 
-#[kani::proof]
-#[kani::unwind(16)]
-#[kani::stub(crate::utils::hypergeometric_pmf, pmf_stub)]
-fn k_proj_wiring_2x3x2_to_2x2x1() {
-    check_project_wiring([2, 3, 2], [2, 2, 1]);
-}
-
 playback_tests!("h_project");
